@@ -131,6 +131,11 @@ def build_and_verify(unit_name, src, th, timeout=900, seed=None):
     t0 = time.time()
     u = mod.build(src, work)
     files = [('main', u.verus_text(), None)] + u.lemma_files()
+    canary_lines = []
+    if getattr(u, 'canaries', None):
+        ct, canary_lines = u.canary_text()
+        if canary_lines:
+            files.append(('canary', ct, None))
     build_s = time.time() - t0
     paths = []
     for suffix, text, names in files:
@@ -147,6 +152,16 @@ def build_and_verify(unit_name, src, th, timeout=900, seed=None):
         suffix, p, text, names = item
         r = run_verus(p, timeout=timeout, extra=extra, rlimit=(40 if suffix == 'main' else 80))
         c = classify(r, text)
+        if suffix == 'canary':
+            lines = text.split('\n')
+            want = {}
+            for ln in canary_lines:
+                for d in range(1, 8):          # the signature follows the marker line (attributes may come first)
+                    if ln - 1 + d < len(lines) and FN_RE.match(lines[ln - 1 + d]):
+                        want[fn_at_line(lines, ln + d)] = ln
+                        break
+            failed = {e['fn'] for e in c['errors']}
+            c['canary'] = dict(expected=sorted(want), verified=sorted(n for n in want if n not in failed) if c['status'] in ('pass', 'fail') else None)
         c.update(file=p, suffix=suffix, wall=r['wall'], cmd=r['cmd'], stderr_tail=r['stderr'][-4000:], lemma_names=names)
         return c
     with ThreadPoolExecutor(max_workers=14) as ex:
